@@ -36,4 +36,16 @@ def refuse (F : Facts) (total free : Nat) (msr : Rat) : Option Bool :=
   | none => none
   | some t => some (F.refuseInBranch && F.freeOp.eval free t)
 
+/-- `low` = the decision of `checkThreshold` on the volume's current numbers (through
+`CheckDiskUsage`, which passes statfs' block counts and the configured setting). One tick of
+`WatchDiskSpace`: returns the new `paused` flag. -/
+def tick (F : Facts) (paused low : Bool) : Bool :=
+  if F.usageUsesConfigMsr && F.watchPausesOnErr && low && !paused then true
+  else if F.usageUsesConfigMsr && F.watchResumesOnOk && !low && paused then false
+  else paused
+
+/-- the watcher over a sequence of observations (one per tick), starting unpaused -/
+def watch (F : Facts) (lows : List Bool) : List Bool :=
+  (lows.foldl (fun (acc : Bool × List Bool) low => let p := tick F acc.1 low; (p, acc.2 ++ [p])) (false, [])).2
+
 end Zeno.Model.Disk
